@@ -254,9 +254,11 @@ let process line =
                  pf "pvalue-monotone a larger score got a larger p-value"
              | 7, ri ->
                  let (tag, i, pbits, sobs, robs, (p64, _)) = List.nth rtl ri in
-                 let inexact = (match f64_bsearch d p64 with
-                     | Ok x -> not (f64_index_exact d (z_of_int (int_of_nat x))) | _ -> false) in
+                 (* the known finding is "the predicate of C11_roundtrip_binary64 is false": scale(unscale(i)) <> i
+                    for some index of the table (evaluated on the model of this case, only when a round trip fails) *)
+                 let _ = p64 in
                  let rtv = Int64.float_of_bits (u64_of_string robs) in
+                 let inexact = not (f64_unscale_exact_on d.d_scale_f d.d_offset d.d_rows (nat_of_int (List.length d.d_sf))) in
                  let label = if inexact then "unscale-inexact roundtrip" else "roundtrip" in
                  pf (Printf.sprintf "%s %s#%d p=%.17g score=%.9g pvalue(score(p))=%.17g > p" label tag i
                        (Int64.float_of_bits pbits) (Int32.float_of_bits (Int64.to_int32 (u64_of_string sobs))) rtv)
